@@ -488,6 +488,10 @@ def transpose_extents_rule(chk, db):
         chk.unknown_instance("TRANSP-EXT", construct, "not a modelled decision procedure: " + unknown)
 
 
+META_EXTRA = "DYNSLOT (dynamic-extent slots selected by the type's own pattern; bulk copies only for rank_dynamic() values; two-arity constructors establish the arity); TRANSP / TRANSP-EXT (transposed stride and extents evaluated per case); PARAM."
+META = (META[0] + " " + META_EXTRA, META[1])
+
+
 def run(chk, tier):
     db = D.load("checks")
     from ..rules import params as _PR
